@@ -159,7 +159,11 @@ func auditImage(st oracle.Store, d string, seen map[string]bool) []string {
 			}
 			alg := diffs[i][:strings.IndexByte(diffs[i], ':')]
 			if regmodel.Digest(alg, ub) != diffs[i] {
-				out = append(out, fmt.Sprintf("diff_id %d of %s is %s but the uncompressed layer hashes to %s", i, short(d), short(diffs[i]), short(regmodel.Digest(alg, ub))))
+				var all []string
+				for _, x := range diffs {
+					all = append(all, short(x))
+				}
+				out = append(out, fmt.Sprintf("diff_id %d of %s is %s but the uncompressed layer hashes to %s (diff_ids %v)", i, short(d), short(diffs[i]), short(regmodel.Digest(alg, ub)), all))
 			}
 		}
 	}
